@@ -196,7 +196,7 @@ func c18(c *Ctx) {
 		"precedence, several inputs, lalr(2) conflicts resolved by the lookahead trie, state markers incl. .greedy, token sets, template flags); mutated/random grammars that do not compile are dropped. " +
 		"Dedicated shapes: cc grammars with 2-6 distinct implicit casts of default actions (flexMode on/off); lalr(2) grammars with 2-4 reduce/reduce conflict groups in ONE state, each resolved at depth 2; rules whose mid-rule actions are preceded by >= 2 symbols and followed by optionals/choices (go and cc); nodePrefix variants. " +
 		"Each grammar: generated k times in this process and in child processes with GOMAXPROCS=1 and 16 (every run draws fresh random map orders), digests of all Writer.Write calls (names, order, content) compared; " +
-		"hist cases: grammar B generated after grammar A in ONE fresh process vs B alone in a fresh process (nodePrefix variants and consecutive grammars of one target language, both directions); cwd cases: the same content as relative path g.tm generated from two different working directories; " +
+		"hist cases: grammar B generated after grammar A in ONE fresh process vs B alone in a fresh process (nodePrefix variants and consecutive grammars of one target language, both directions; also after a FAILED generation: a grammar that compiles but fails while the templates are rendered); cli cases: cmd/textmapper built from the tree under test, revision 2 of a grammar (same-length edit) generated over the files of revision 1 vs into an empty directory; reduce-ties: optimizeTables + defaultReduce with states whose reductions tie; cwd cases: the same content as relative path g.tm generated from two different working directories; " +
 		"non-trivial = a grammar that generated at least one file; distinct by grammar text. inv cases: Remap injective / ArgRefs[k].Pos==k on the compiled grammars; site cases: inventory of tools/factgen on the tree under test vs the Lean classification. " +
 		"The class of the fixed finding C18-opt-alias-collision (aliasIncludesOptSuffix = false with a rule naming both `x` and `x<optsuffix>`) is generated: the witness grammar (40 in-process + 24 child runs) and about a third of the random grammars."
 
@@ -292,6 +292,13 @@ func c18(c *Ctx) {
 			i++
 		}
 	}
+	// default-reduction ties: optimizeTables + defaultReduce and a state where several reductions are taken
+	// on the same number of terminals
+	for i, tries := 0, 0; i < c.N(4, 12) && tries < 4*c.N(4, 12); tries++ {
+		if addText("reduce-ties", fmt.Sprintf("ties%d", i), c18TieGrammar(c.Rng, fmt.Sprintf("t%d", i))) {
+			i++
+		}
+	}
 	// variants: the same grammar with another nodePrefix (same node names, different rendered ids)
 	nv := 0
 	for gi := range pool {
@@ -326,13 +333,34 @@ func c18(c *Ctx) {
 	type childJob struct {
 		g     int
 		after int    // >= 0: history job, grammar `after` is generated first in the same process
+		fail  int    // >= 0: history job whose predecessor is failing grammar c18Failing[fail] (fails while rendering)
 		dir   string // != "": working-directory job, the grammar is `g.tm` in this directory, given as a relative path
 		procs int
 		out   c18Run
 	}
 	var jobs []*childJob
 	for _, pr := range pairs {
-		jobs = append(jobs, &childJob{g: pr[1], after: pr[0], procs: 1})
+		jobs = append(jobs, &childJob{g: pr[1], after: pr[0], fail: -1, procs: 1})
+	}
+	// history with a FAILED generation first: grammars that compile but fail while the templates are rendered
+	// (after part of a file has been produced), followed by a good grammar in the same process
+	var failPaths []string
+	for i, text := range c18Failing {
+		fp := filepath.Join(tmp, fmt.Sprintf("failing%d.tm", i))
+		must(os.WriteFile(fp, []byte(text), 0o644))
+		failPaths = append(failPaths, fp)
+	}
+	{
+		var cand []int
+		for gi, g := range pool {
+			if !g.Heavy {
+				cand = append(cand, gi)
+			}
+		}
+		c.Rng.Shuffle(len(cand), func(a, b int) { cand[a], cand[b] = cand[b], cand[a] })
+		for k := 0; k < len(cand) && k < c.N(12, 40); k++ {
+			jobs = append(jobs, &childJob{g: cand[k], after: -1, fail: k % len(c18Failing), procs: 1})
+		}
 	}
 	// working directory: the same relative path `g.tm` (same content) generated from two different directories
 	for gi, g := range pool {
@@ -347,7 +375,7 @@ func c18(c *Ctx) {
 			dir := filepath.Join(tmp, d, fmt.Sprint(gi))
 			must(os.MkdirAll(dir, 0o755))
 			must(os.WriteFile(filepath.Join(dir, "g.tm"), content, 0o644))
-			jobs = append(jobs, &childJob{g: gi, after: -1, dir: dir, procs: 1})
+			jobs = append(jobs, &childJob{g: gi, after: -1, fail: -1, dir: dir, procs: 1})
 		}
 	}
 	for gi, g := range pool {
@@ -360,7 +388,7 @@ func c18(c *Ctx) {
 		}
 		for _, procs := range []int{1, 16} {
 			for k := 0; k < n; k++ {
-				jobs = append(jobs, &childJob{g: gi, after: -1, procs: procs})
+				jobs = append(jobs, &childJob{g: gi, after: -1, fail: -1, procs: procs})
 			}
 		}
 	}
@@ -381,6 +409,9 @@ func c18(c *Ctx) {
 				args := []string{"C18-child"}
 				if j.after >= 0 {
 					args = append(args, pool[j.after].Path)
+				}
+				if j.fail >= 0 {
+					args = append(args, failPaths[j.fail])
 				}
 				cmd := exec.Command(self, append(args, pool[j.g].Path)...)
 				if j.dir != "" {
@@ -449,7 +480,7 @@ func c18(c *Ctx) {
 		if g.Kind == "witness" {
 			extra = 40
 		}
-		if g.Kind == "cc-casts" || g.Kind == "la2-groups" || g.Kind == "midrule" {
+		if g.Kind == "cc-casts" || g.Kind == "la2-groups" || g.Kind == "midrule" || g.Kind == "reduce-ties" {
 			extra = 6
 		}
 		for k := 0; k < extra; k++ {
@@ -465,7 +496,7 @@ func c18(c *Ctx) {
 			wd[j.g] = append(wd[j.g], j.out)
 			continue
 		}
-		if j.after >= 0 {
+		if j.after >= 0 || j.fail >= 0 {
 			continue
 		}
 		res := &results[j.g]
@@ -536,6 +567,24 @@ func c18(c *Ctx) {
 		}
 	}
 	for _, j := range jobs {
+		if j.fail < 0 || nondet[j.g] {
+			continue
+		}
+		b := pool[j.g]
+		fr := fresh[j.g]
+		c.Count("history-after-failed-generation")
+		c.Case(fmt.Sprintf("hist %s failing%d %s %s", c18NameRE.ReplaceAllString(b.Name, "_"), j.fail, fr.Digest, j.out.Digest), "same", fmt.Sprintf("histfail:%d>%s", j.fail, b.Name))
+		if fr.Digest != j.out.Digest {
+			show := b.Name + " (file of the repository)"
+			if b.Text != "" {
+				show = b.Name + "\n" + b.Text
+			}
+			c.Violate(fmt.Sprintf("history dependence: grammar %s generated after a FAILED generation (grammar failing%d: compiles, fails while rendering the templates) in one process differs from %s generated alone in a fresh process: %s",
+				b.Name, j.fail, b.Name, c18Describe(fr, j.out)),
+				fmt.Sprintf("history: first failing%d\n%s\n---- then %s", j.fail, c18Failing[j.fail], show))
+		}
+	}
+	for _, j := range jobs {
 		if j.after < 0 || j.dir != "" {
 			continue
 		}
@@ -561,6 +610,7 @@ func c18(c *Ctx) {
 		}
 	}
 
+	c18CLI(c, repo, tmp)
 	c.Extra["grammars"] = len(pool)
 	c.Extra["child_runs"] = len(jobs)
 }
@@ -752,6 +802,244 @@ func c18MidruleGrammar(r *rand.Rand, name string) string {
 		fmt.Fprintf(&sb, "input:\n    %s\n;\n", strings.Join(alts, "\n  | "))
 	}
 	return sb.String()
+}
+
+// c18Failing: grammars that compile but fail while the templates are rendered (an action refers to a symbol
+// that does not exist), after part of the output has been produced.
+var c18Failing = []string{
+	`language failgo(go);
+
+package = "example.com/failgo"
+eventBased = true
+
+:: lexer
+
+'a': /a/
+'b': /b/
+
+:: parser
+
+%input S;
+
+S {int}: A 'b' { $$ = $A } ;
+A {int}: 'a' { $$ = 1 } | 'b' 'a' { $$ = $nosuchsymbol } ;
+`,
+	`language failcc(cc);
+
+namespace = "failcc"
+includeGuardPrefix = "FAILCC_"
+filenamePrefix = "failcc_"
+
+:: lexer
+
+'a': /a/
+'b': /b/
+
+:: parser
+
+%input S;
+
+S {int}: A 'b' { $$ = $A; } ;
+A {int}: 'a' { $$ = 1; } | 'b' 'a' { $$ = $nosuchsymbol; } ;
+`,
+}
+
+// c18TieGrammar: `input: N0 't0' | N1 't1' | …; Ni: 'a' [x];` with optimizeTables + defaultReduce: after 'a' the
+// state reduces Ni on ti only, so all reductions tie for the default.
+func c18TieGrammar(r *rand.Rand, name string) string {
+	lang := []string{"go", "go", "cc", "ts"}[r.Intn(4)]
+	var sb strings.Builder
+	fmt.Fprintf(&sb, "language %s(%s);\n\n", name, lang)
+	switch lang {
+	case "go":
+		fmt.Fprintf(&sb, "package = \"example.com/%s\"\n", name)
+	case "cc":
+		fmt.Fprintf(&sb, "namespace = %q\nincludeGuardPrefix = \"%s_\"\nfilenamePrefix = \"%s_\"\n", name, strings.ToUpper(name), name)
+	}
+	if lang != "cc" || r.Intn(2) == 0 {
+		sb.WriteString("eventBased = true\n")
+	}
+	sb.WriteString("optimizeTables = true\ndefaultReduce = true\n\n:: lexer\n\n'a': /a/\n'b': /b/\n")
+	n := 2 + r.Intn(3)
+	for i := 0; i < n; i++ {
+		fmt.Fprintf(&sb, "'t%d': /t%d/\n", i, i)
+	}
+	sb.WriteString("\n:: parser\n\n%input input;\n\n")
+	var alts, nts []string
+	two := r.Intn(2) == 0 // a second tie state after 'b'
+	for i := 0; i < n; i++ {
+		alts = append(alts, fmt.Sprintf("N%d 't%d'", i, i))
+		if two {
+			nts = append(nts, fmt.Sprintf("N%d: 'a' | 'b' ;", i))
+		} else {
+			nts = append(nts, fmt.Sprintf("N%d: 'a' ;", i))
+		}
+	}
+	r.Shuffle(len(alts), func(a, b int) { alts[a], alts[b] = alts[b], alts[a] })
+	r.Shuffle(len(nts), func(a, b int) { nts[a], nts[b] = nts[b], nts[a] })
+	fmt.Fprintf(&sb, "input:\n    %s\n;\n\n%s\n", strings.Join(alts, "\n  | "), strings.Join(nts, "\n"))
+	return sb.String()
+}
+
+// c18CLIGrammars: (name, text with the placeholder @@) pairs; @@ is replaced by two different strings of the
+// same length, which changes a generated file without changing its length.
+var c18CLIGrammars = []struct{ name, text, rev1, rev2 string }{
+	{"go-action-constant", `language cli(go);
+
+package = "example.com/cli"
+eventBased = true
+
+:: lexer
+
+'a': /a/
+'b': /b/
+
+:: parser
+
+%input S;
+
+S {int}: A 'b' { $$ = $A } ;
+A {int}: 'a' { $$ = @@ } ;
+`, "1", "7"},
+	{"cc-action-constant", `language cli(cc);
+
+namespace = "cli"
+includeGuardPrefix = "CLI_"
+filenamePrefix = "cli_"
+
+:: lexer
+
+'a': /a/
+'b': /b/
+
+:: parser
+
+%input S;
+
+S {int}: A 'b' { $$ = $A; } ;
+A {int}: 'a' { $$ = @@; } ;
+`, "10", "42"},
+	{"go-keyword-text", `language cli(go);
+
+package = "example.com/cli"
+eventBased = true
+
+:: lexer
+
+'kw': /@@/
+'b': /b/
+
+:: parser
+
+%input S;
+
+S: 'kw' 'b' ;
+`, "let", "lot"},
+	{"ts-node-prefix", `language cli(ts);
+
+eventBased = true
+nodePrefix = "@@"
+
+:: lexer
+
+'a': /a/
+'b': /b/
+
+:: parser
+
+%input S;
+
+S -> Root: 'a' 'b' -> Pair ;
+`, "Aa", "Bb"},
+}
+
+// c18CLI runs the real command-line code path (cmd/textmapper built from the tree under test, its file
+// writer included): revision 1 of a grammar is generated into a directory, the grammar gets a same-length edit,
+// revision 2 is generated into the SAME directory; the files on disk must equal those of revision 2 generated
+// into an empty directory.
+func c18CLI(c *Ctx, repo, tmp string) {
+	bin := filepath.Join(tmp, "textmapper-cli")
+	build := exec.Command("go", "build", "-o", bin, "./cmd/textmapper")
+	build.Dir = repo
+	if out, err := build.CombinedOutput(); err != nil {
+		msg := string(out)
+		if len(msg) > 300 {
+			msg = msg[:300]
+		}
+		c.Notes = append(c.Notes, "cmd/textmapper could not be built from the tree under test; cli cases skipped: "+msg)
+		return
+	}
+	dirDigest := func(dir string) (string, map[string]string) {
+		files := map[string]string{}
+		filepath.WalkDir(dir, func(p string, d os.DirEntry, err error) error {
+			if err == nil && !d.IsDir() {
+				b, _ := os.ReadFile(p)
+				rel, _ := filepath.Rel(dir, p)
+				files[rel] = fmt.Sprintf("%x", sha256.Sum256(b))[:16]
+			}
+			return nil
+		})
+		var names []string
+		for n := range files {
+			names = append(names, n)
+		}
+		sort.Strings(names)
+		h := sha256.New()
+		for _, n := range names {
+			fmt.Fprintf(h, "%s %s\n", n, files[n])
+		}
+		return fmt.Sprintf("%x", h.Sum(nil))[:16], files
+	}
+	for i, sc := range c18CLIGrammars {
+		work := filepath.Join(tmp, fmt.Sprintf("cli%d", i))
+		reused, empty := filepath.Join(work, "reused"), filepath.Join(work, "empty")
+		must(os.MkdirAll(reused, 0o755))
+		must(os.MkdirAll(empty, 0o755))
+		gpath := filepath.Join(work, "cli.tm")
+		run := func(rev, outDir string) error {
+			must(os.WriteFile(gpath, []byte(strings.ReplaceAll(sc.text, "@@", rev)), 0o644))
+			cmd := exec.Command(bin, "generate", "-o", outDir, "cli.tm")
+			cmd.Dir = work
+			out, err := cmd.CombinedOutput()
+			if err != nil {
+				return fmt.Errorf("%v: %s", err, out)
+			}
+			return nil
+		}
+		err1 := run(sc.rev1, reused)
+		err2 := run(sc.rev2, reused)
+		err3 := run(sc.rev2, empty)
+		if err1 != nil || err2 != nil || err3 != nil {
+			c.Count("cli-scenario-failed")
+			c.Notes = append(c.Notes, fmt.Sprintf("cli scenario %s: the command failed (%v / %v / %v)", sc.name, err1, err2, err3))
+			continue
+		}
+		d1, f1 := dirDigest(reused)
+		d2, f2 := dirDigest(empty)
+		c.Count("cli-scenarios")
+		key := ""
+		if len(f2) > 0 {
+			key = "cli:" + sc.name
+		}
+		c.Case(fmt.Sprintf("cli %s %s %s", sc.name, d1, d2), "same", key)
+		if d1 != d2 {
+			var bad []string
+			for n, h := range f2 {
+				if f1[n] != h {
+					bad = append(bad, n)
+				}
+			}
+			for n := range f1 {
+				if _, ok := f2[n]; !ok {
+					bad = append(bad, n+" (left over)")
+				}
+			}
+			sort.Strings(bad)
+			c.Violate(fmt.Sprintf("output depends on what an earlier generation left on disk: `textmapper generate -o dir cli.tm` of revision 2 (%q instead of %q, same length) into the directory that holds the files of revision 1 leaves file(s) %s different from generating revision 2 into an empty directory",
+				sc.rev2, sc.rev1, strings.Join(bad, ", ")),
+				"scenario "+sc.name+": revision 1 = text below with @@ := "+sc.rev1+", revision 2 = with @@ := "+sc.rev2+"\n"+sc.text)
+		}
+	}
 }
 
 func c18Describe(a, b c18Run) string {
@@ -1044,6 +1332,15 @@ func c18RandGrammar(r *rand.Rand, name string) (string, []string) {
 		}
 		chosen[o] = v
 		fmt.Fprintf(&sb, "%s = %v\n", o, v)
+	}
+	if !la2 && pick(25) {
+		if _, ok := chosen["optimizeTables"]; !ok {
+			sb.WriteString("optimizeTables = true\n")
+		}
+		if _, ok := chosen["defaultReduce"]; !ok {
+			sb.WriteString("defaultReduce = true\n")
+		}
+		feat("optimize+defaultReduce")
 	}
 	optSuffix := "opt"
 	if pick(25) {
